@@ -329,6 +329,9 @@ Definition plan_replace_leaders (b : bstate) (best next : splan) : splan :=
     (pm_ids (b_cur b)) best.
 
 Definition cur_free (b : bstate) (st : Z) : bool := negb (is_some (pm_get (b_cur b) st)).
+(* one add and one remove are all that is pending *)
+Definition single_replace (b : bstate) : bool :=
+  Nat.eqb (length (b_add b)) 1 && Nat.eqb (length (b_remove b)) 1 && Nat.eqb (length (b_promote b)) 0 && Nat.eqb (length (b_demote b)) 0.
 
 Definition plan_replace (b : bstate) : splan :=
   (* promote learner + demote voter *)
@@ -340,9 +343,10 @@ Definition plan_replace (b : bstate) : splan :=
                   if negb (is_learner a)
                   then plan_replace_leaders b best (SPlan 0 0 (Some a) None None (Some d)) else best) (b_add b) best)
                 (b_demote b) best1 in
-  (* add voter + remove voter OR add learner + remove learner; the store of the new peer must be free *)
+  (* add voter + remove voter OR add learner + remove learner - or any add + remove when they are all that is pending;
+     the store of the new peer must be free *)
   let best2 := fold_left (fun best a => fold_left (fun best r =>
-                  if Bool.eqb (is_learner r) (is_learner a) && cur_free b (pstore a)
+                  if (Bool.eqb (is_learner r) (is_learner a) || single_replace b) && cur_free b (pstore a)
                   then plan_replace_leaders b best (SPlan 0 0 (Some a) (Some r) None None) else best) (b_remove b) best)
                 (b_add b) best1' in
   (* add learner + promote learner + remove voter *)
